@@ -33,7 +33,7 @@ def honestOp : List String → Option String
         let (d0, r0, o0) := answer w.dev w.rdr (mk n0).1 (mk n0).2
         let outs := rounds d0 r0 (rest.map fun n => ⟨(mk n).1, (mk n).2⟩)
         let okFirst := match o0 with | some (.accepted (.response 0 _)) => true | _ => false
-        let okRest := outs.all fun (o1, o2) => o1 == .accepted .request && (match o2 with | some (.accepted (.response 0 _)) => true | _ => false)
+        let okRest := outs.all fun (o1, o2) => o1 == some (.accepted .request) && (match o2 with | some (.accepted (.response 0 _)) => true | _ => false)
         let fin := rest.foldl (fun (dr : Device × Reader) n => let x := round dr.1 dr.2 (mk n).1 (mk n).2; (x.1, x.2.1)) (d0, r0)
         pure s!"{if okFirst && okRest then "all-accepted" else "not-accepted"} dev={fin.1.encCtr.toNat},{fin.1.decCtr.toNat} rdr={fin.2.encCtr.toNat},{fin.2.decCtr.toNat}"
   | _ => none
